@@ -306,6 +306,24 @@ func gaussianPreconditions(c *core.Ctx, r *core.Report) {
 				}
 			}
 		}
+		if !tested {
+			// … or in a validation helper the constructor hands the list to
+			for _, t := range rejectingTests(ctor, 3) {
+				k, isK := an.Strip(t.Y.V).(*ssa.Const)
+				if !isK || k.Value == nil || k.Float64() != 0 || t.Op != token.LSS || !an.InLoop(t.Ev.Instr) {
+					continue
+				}
+				ia, isIA := an.Strip(t.RawX).(*ssa.IndexAddr)
+				if !isIA {
+					if ld, isLd := t.RawX.(*ssa.UnOp); isLd {
+						ia, isIA = ld.X.(*ssa.IndexAddr)
+					}
+				}
+				if isIA && an.Strip(an.EventFV(t.Ev, ia.X).Resolve(nil).V) == ssa.Value(p) {
+					tested = true
+				}
+			}
+		}
 		r.Check(tested, key+"#"+p.Name()+"-elements>=0", c.Pos(ctor.Pos()), "every element of "+p.Name()+" is tested not negative", "the elements of "+p.Name()+" are not tested: a negative weight turns that window's requests negative")
 	}
 	// (3) float divisions by computed values, and float fields the rate method divides by
@@ -402,6 +420,35 @@ func gaussianPreconditions(c *core.Ctx, r *core.Report) {
 					}
 					if !onEdge {
 						one = false
+					}
+				}
+			case *ssa.Extract:
+				// computed (and validated) by a helper: every successful return of the helper hands back a positive
+				// constant — the default, which must be chosen only for an empty list — or a value tested > 0
+				one = positiveGuard(at, v) || positiveGuard(okRet, v)
+				if call, isCall := x.Tuple.(*ssa.Call); isCall && !one {
+					if h := an.Callee(call); h != nil && core.RelPkg(h) == gpkg && h.Blocks != nil {
+						ei := errIndex(h)
+						one = ei >= 0
+						n := 0
+						for _, hr := range an.Returns(h) {
+							if ei < 0 || !isNilConst(hr.Results[ei]) {
+								continue
+							}
+							n++
+							rv := hr.Results[x.Index]
+							if k, isK := an.Strip(rv).(*ssa.Const); isK && k.Value != nil && k.Float64() > 0 {
+								okEmpty, why := returnOnlyWhenEmpty(hr)
+								r.Check(okEmpty, key+"#"+f+"-default-only-when-empty", an.Pos(c, hr), "the constant default of "+f+" is returned only when no weights are given", "the constant default of "+f+" is also returned when weights are given ("+why+"): those weights are then divided by 1 instead of their mean, and the window requests weight× the configured volume")
+								continue
+							}
+							if !positiveGuard(hr, rv) {
+								one = false
+							}
+						}
+						if n == 0 {
+							one = false
+						}
 					}
 				}
 			default:
@@ -1115,4 +1162,36 @@ func edgeOnlyWhenEmpty(phi *ssa.Phi, i int, fn *ssa.Function) (bool, string) {
 	// on this edge: len op n; it must imply len <= 0
 	implies := (op == token.LEQ && n <= 0) || (op == token.LSS && n <= 1) || (op == token.EQL && n == 0)
 	return implies, sprintf("on this edge len(%s) %s %d", an.D().Of(call.Call.Args[0]), op, n)
+}
+
+// returnOnlyWhenEmpty: the return is guarded by a test implying len(p) == 0 for a slice parameter p.
+func returnOnlyWhenEmpty(ret *ssa.Return) (bool, string) {
+	for _, g := range an.GuardsOf(ret.Block()) {
+		bo, ok := g.Cond.(*ssa.BinOp)
+		if !ok {
+			continue
+		}
+		x, y, op := bo.X, bo.Y, bo.Op
+		if _, isK := x.(*ssa.Const); isK {
+			x, y = y, x
+			op = map[token.Token]token.Token{token.LSS: token.GTR, token.LEQ: token.GEQ, token.GTR: token.LSS, token.GEQ: token.LEQ, token.EQL: token.EQL, token.NEQ: token.NEQ}[op]
+		}
+		call, isCall := an.Strip(x).(*ssa.Call)
+		k, isK := y.(*ssa.Const)
+		if !isCall || !an.IsBuiltinCall(call, "len") || !isK || k.Value == nil {
+			continue
+		}
+		if _, isParam := an.Strip(call.Call.Args[0]).(*ssa.Parameter); !isParam {
+			continue
+		}
+		if !g.Polarity {
+			op = negateCmp(op)
+		}
+		n := k.Int64()
+		if (op == token.LEQ && n <= 0) || (op == token.LSS && n <= 1) || (op == token.EQL && n == 0) {
+			return true, ""
+		}
+		return false, sprintf("returned under len(%s) %s %d", an.D().Of(call.Call.Args[0]), op, n)
+	}
+	return false, "not guarded by a test of the list's length"
 }
